@@ -17,7 +17,7 @@ if [ "${TESTS:-0}" = 1 ]; then
 fi
 cd "$(dirname "$0")/.."
 for P in "$@"; do
-  VERIF_REPO="$W" ./check "$P" --tier "${TIER:-quick}" > /tmp/mutrun_check_$$.log 2>&1; rc=$?
+  VERIF_OUT=/tmp/mutrun_out_$$ VERIF_REPO="$W" ./check "$P" --tier "${TIER:-quick}" > /tmp/mutrun_check_$$.log 2>&1; rc=$?
   echo "check $P: exit $rc"; grep -E "VIOLATION|INFRASTRUCTURE" /tmp/mutrun_check_$$.log | head -3; tail -1 /tmp/mutrun_check_$$.log
 done
-rm -f /tmp/mutrun_demo_$$.log /tmp/mutrun_check_$$.log
+rm -rf /tmp/mutrun_demo_$$.log /tmp/mutrun_check_$$.log /tmp/mutrun_out_$$
